@@ -1439,6 +1439,103 @@ def rule_r21(prog, res):
               c08.rule_r12, prog, Result)
 
 
+def rule_r22(prog, res):
+    res.rule('R22', 'a value threaded through a loop of emitter calls '
+             '(x = self.emit(..., x)) is handed back on every path of the '
+             'emitter')
+    from ..flow import always_exits
+    w = prog.cls(WSDL)
+    n = 0
+    for nm, f in sorted(w.methods.items()):
+        for a in walk_no_defs(f.node):
+            if not (isinstance(a, ast.Assign) and len(a.targets) == 1 and
+                    isinstance(a.targets[0], ast.Name) and isinstance(
+                        a.value, ast.Call) and isinstance(
+                        a.value.func, ast.Attribute) and isinstance(
+                        a.value.func.value, ast.Name) and
+                    a.value.func.value.id == 'self'):
+                continue
+            tname = a.targets[0].id
+            idx = [i for i, x in enumerate(a.value.args)
+                   if isinstance(x, ast.Name) and x.id == tname]
+            callee = prog.find_method(w, a.value.func.attr)
+            if not idx or callee is None:
+                continue
+            params = [p.arg for p in callee.node.args.args][1:]
+            if idx[0] >= len(params):
+                continue
+            pname = params[idx[0]]
+            n += 1
+            rets = [r for r in walk_no_defs(callee.node)
+                    if isinstance(r, ast.Return)]
+            falls = not always_exits(callee.node.body)
+            other = [r for r in rets if not (isinstance(r.value, ast.Name)
+                                             and r.value.id == pname)]
+            ok = not falls and not other and bool(rets)
+            res.ob('R22', callee.where, '%s threads %s through %s: %s' % (
+                nm, tname, callee.name, 'returned on every path' if ok else
+                'lost on %s' % ('the fall-through path' if falls else
+                                'line %d' % other[0].lineno)),
+                'ok' if ok else 'VIOLATED')
+            if not ok:
+                res.finding('R22', 'Wsdl11.%s|threaded-value-lost|%s' % (
+                    callee.name, pname), callee.where, '%s is called as '
+                    '"%s = self.%s(..., %s)" for every service, but it does '
+                    'not return %s on every path: after a service that takes '
+                    'the other path the shared binding is None again and a '
+                    'second wsdl:binding of the same name is emitted for the '
+                    'next service' % (callee.name, tname, callee.name, tname,
+                                      pname))
+    res.floor('R22', 'threaded emitter values in Wsdl11', n, 1)
+
+
+def rule_r23(prog, res):
+    res.rule('R23', 'the class a type extends is registered whenever there is '
+             'one: the schema writer refers to it unconditionally')
+    itf = prog.cls('spyne.interface._base:Interface')
+    f = itf.methods.get('add_class')
+    if f is None:
+        raise AnalysisError('Interface.add_class', 'not found')
+    n = 0
+    for c in calls_in(f.node):
+        if not (call_name(c) == 'add_class' and len(c.args) == 1 and
+                isinstance(c.args[0], ast.Name)):
+            continue
+        nm = c.args[0].id
+        if not any('__extends__' in unparse(v)
+                   for v in _local_values(f.node, nm)):
+            continue
+        n += 1
+        st = c
+        while not isinstance(st, ast.stmt):
+            st = parent(st)
+        extra = []
+        asserted = {id(x) for a_ in walk_no_defs(f.node)
+                    if isinstance(a_, ast.Assert) for x in ast.walk(a_.test)}
+        for e, pol in flatten_guards(guards_at(st, stop=f.node)):
+            if id(e) in asserted:
+                continue        # an assertion does not decide anything
+            if any(isinstance(x, ast.Attribute) and isinstance(
+                    x.value, ast.Name) and x.value.id == nm
+                    for x in ast.walk(e)) or any(
+                    isinstance(x, ast.Call) and any(
+                        isinstance(y, ast.Name) and y.id == nm
+                        for y in x.args) for x in ast.walk(e)):
+                extra.append(('' if pol else 'not ') + unparse(e))
+        where = '%s:%d' % (f.module.relpath, c.lineno)
+        res.ob('R23', where, 'add_class registers the parent %s' % (
+            'under a condition on the parent: %s' % extra if extra else
+            'whenever there is one'), 'VIOLATED' if extra else 'ok')
+        if extra:
+            res.finding('R23', 'Interface.add_class|parent-registration-'
+                        'conditional', where, 'the parent class is registered '
+                        'only when "%s": complex_add writes <xs:extension '
+                        'base=...> for every parent, so for the others the '
+                        'schema refers to a type it does not define' %
+                        extra[0])
+    res.floor('R23', 'parent registrations in Interface.add_class', n, 1)
+
+
 def run(prog, res, tier):
     res.run_rule(rule_r1, prog, res, tier)
     res.run_rule(rule_r2, prog, res)
@@ -1461,6 +1558,8 @@ def run(prog, res, tier):
     res.run_rule(rule_r19, prog, res)
     res.run_rule(rule_r20, prog, res)
     res.run_rule(rule_r21, prog, res)
+    res.run_rule(rule_r22, prog, res)
+    res.run_rule(rule_r23, prog, res)
 
 
 _S = 'spyne/interface/xml_schema/_base.py'
@@ -1469,6 +1568,18 @@ _I = 'spyne/interface/_base.py'
 _T = 'spyne/util/toposort.py'
 
 MUTANTS = [
+    Mutant('shared-binding-returned-in-one-branch', 'R22', 'fire', _W,
+           in_func('Wsdl11.add_bindings_for_methods',
+                   "                inner(m, cb_binding)\n\n"
+                   "        return cb_binding",
+                   "                inner(m, cb_binding)\n\n"
+                   "            return cb_binding"), 'threaded-value-lost'),
+    Mutant('private-parent-not-registered', 'R23', 'fire', _I,
+           in_func('Interface.add_class',
+                   "        if add_parent and extends is not None:\n",
+                   "        if add_parent and extends is not None and \\\n"
+                   "                      not extends.Attributes.exc_interface"
+                   ":\n"), 'parent-registration-conditional'),
     Mutant('unnamed-ancestor-skip-removed', 'R20', 'fire',
            'spyne/interface/xml_schema/model.py',
            in_func('simple_get_restriction_tag',
